@@ -3,67 +3,109 @@ use serde_json::{Value, json};
 use tevec::prelude::*;
 use tvh_common::*;
 
-pub enum It<'a> {
-    Fwd(Box<dyn TrustedLen<Item = f64> + 'a>),
-    De(Box<dyn TIterator<Item = f64> + 'a>),
-}
-impl It<'_> {
-    fn hint(&self) -> (usize, Option<usize>) {
-        match self {
-            It::Fwd(i) => i.size_hint(),
-            It::De(i) => i.size_hint(),
-        }
-    }
-    fn next(&mut self) -> Option<f64> {
-        match self {
-            It::Fwd(i) => i.next(),
-            It::De(i) => i.next(),
-        }
-    }
+/// One iterator under test, with the WHOLE consumption protocol dispatched on its concrete type
+/// (so that an override of nth / last / count / fold in the library is what gets called).
+pub trait Ops {
+    fn hint(&self) -> (usize, Option<usize>);
+    fn next(&mut self) -> Option<f64>;
+    fn nth(&mut self, k: usize) -> Option<f64>;
     fn next_back(&mut self) -> Option<f64> {
-        match self {
-            It::Fwd(_) => panic!("harness: next_back on a forward-only iterator"),
-            It::De(i) => i.next_back(),
-        }
+        panic!("harness: next_back on a forward-only iterator")
     }
-    fn nth(&mut self, k: usize) -> Option<f64> {
-        match self {
-            It::Fwd(i) => i.nth(k),
-            It::De(i) => i.nth(k),
-        }
+    fn nth_back(&mut self, _k: usize) -> Option<f64> {
+        panic!("harness: nth_back on a forward-only iterator")
     }
+    /// terminal operations: they consume what is left
+    fn count_rest(&mut self) -> usize;
+    fn last_rest(&mut self) -> Option<f64>;
+    fn fold_rest(&mut self) -> (usize, f64);
+}
+pub struct Fw<I>(Option<I>);
+pub struct De<I>(Option<I>);
+macro_rules! common_ops {
+    () => {
+        fn hint(&self) -> (usize, Option<usize>) {
+            self.0.as_ref().unwrap().size_hint()
+        }
+        fn next(&mut self) -> Option<f64> {
+            self.0.as_mut().unwrap().next()
+        }
+        fn nth(&mut self, k: usize) -> Option<f64> {
+            self.0.as_mut().unwrap().nth(k)
+        }
+        fn count_rest(&mut self) -> usize {
+            Iterator::count(self.0.take().unwrap())
+        }
+        fn last_rest(&mut self) -> Option<f64> {
+            Iterator::last(self.0.take().unwrap())
+        }
+        fn fold_rest(&mut self) -> (usize, f64) {
+            Iterator::fold(self.0.take().unwrap(), (0usize, 0.0), |(n, s), x| (n + 1, if x.is_nan() { s } else { s + x }))
+        }
+    };
+}
+impl<I: Iterator<Item = f64>> Ops for Fw<I> {
+    common_ops!();
+}
+impl<I: DoubleEndedIterator<Item = f64>> Ops for De<I> {
+    common_ops!();
+    fn next_back(&mut self) -> Option<f64> {
+        self.0.as_mut().unwrap().next_back()
+    }
+    fn nth_back(&mut self, k: usize) -> Option<f64> {
+        self.0.as_mut().unwrap().nth_back(k)
+    }
+}
+pub type It<'a> = Box<dyn Ops + 'a>;
+fn fw<'a, I: Iterator<Item = f64> + 'a>(i: I) -> It<'a> {
+    Box::new(Fw(Some(i)))
+}
+fn de<'a, I: DoubleEndedIterator<Item = f64> + 'a>(i: I) -> It<'a> {
+    Box::new(De(Some(i)))
 }
 
 /// the real iterator for a specification adaptor instance
 pub fn build<'a>(kind: &str, v: &'a Vec<f64>, p: i64, q: i64) -> It<'a> {
     let n = p as i32;
     match kind {
-        "titer" => It::De(Box::new(v.titer())),
-        "map" => It::De(Box::new(v.titer().map(|x| x + 100.0))),
-        "shift" => It::Fwd(v.titer().shift(n, f64::NAN)),
-        "vshift" => It::Fwd(v.titer().vshift(n, None)),
-        "vdiff" => It::Fwd(v.vdiff(n, None)),
-        "vpct" => It::Fwd(v.vpct_change(n)),
-        "fill" => It::Fwd(Box::new(v.titer().fill(7.0))),
-        "clip" => It::Fwd(v.titer().vclip(f64::NAN, 1000.0)),
-        "partition" => It::Fwd(v.vpartition(p as usize, false, false)),
-        "argpartition" => It::Fwd(Box::new(v.varg_partition(p as usize, false, false).map(|i| i as f64))),
-        "rolling_iter" => It::Fwd(Box::new(v.rolling_custom_iter(p as usize, |s: &[f64]| s.len() as f64))),
-        "pipe2" => It::Fwd(v.titer().vshift(n, None).vshift(q as i32, None)),
-        "pipe3" => It::Fwd(Box::new(v.titer().vshift(n, None).vabs().map(|x| x)).vclip(f64::NAN, f64::NAN).vshift(q as i32, None)),
+        "titer" => de(v.titer()),
+        "map" => de(v.titer().map(|x| x + 100.0)),
+        "shift" => fw(v.titer().shift(n, f64::NAN)),
+        "vshift" => fw(v.titer().vshift(n, None)),
+        "vdiff" => fw(v.vdiff(n, None)),
+        "vpct" => fw(v.vpct_change(n)),
+        "fill" => fw(v.titer().fill(7.0)),
+        "clip" => fw(v.titer().vclip(f64::NAN, 1000.0)),
+        "partition" => fw(v.vpartition(p as usize, false, false)),
+        "argpartition" => fw(v.varg_partition(p as usize, false, false).map(|i| i as f64)),
+        "rolling_iter" => fw(v.rolling_custom_iter(p as usize, |s: &[f64]| s.len() as f64)),
+        "pipe2" => fw(v.titer().vshift(n, None).vshift(q as i32, None)),
+        "pipe3" => fw(Box::new(v.titer().vshift(n, None).vabs().map(|x| x)).vclip(f64::NAN, f64::NAN).vshift(q as i32, None)),
+        // the wrapper itself, on its concrete type: a source with a declared length
+        "to_trust" => de(v.titer().to_trust(v.len())),
         _ => panic!("harness: unknown kind {kind}"),
     }
 }
 
 /// the same iterator as a forward-only trusted-length box (what the trusted collectors take)
 pub fn build_fwd<'a>(kind: &str, v: &'a Vec<f64>, p: i64, q: i64) -> Box<dyn TrustedLen<Item = f64> + 'a> {
+    let n = p as i32;
     match kind {
         "titer" => Box::new(v.titer()),
         "map" => Box::new(v.titer().map(|x| x + 100.0)),
-        _ => match build(kind, v, p, q) {
-            It::Fwd(i) => i,
-            It::De(_) => unreachable!(),
-        },
+        "shift" => v.titer().shift(n, f64::NAN),
+        "vshift" => v.titer().vshift(n, None),
+        "vdiff" => v.vdiff(n, None),
+        "vpct" => v.vpct_change(n),
+        "fill" => Box::new(v.titer().fill(7.0)),
+        "clip" => v.titer().vclip(f64::NAN, 1000.0),
+        "partition" => v.vpartition(p as usize, false, false),
+        "argpartition" => Box::new(v.varg_partition(p as usize, false, false).map(|i| i as f64)),
+        "rolling_iter" => Box::new(v.rolling_custom_iter(p as usize, |s: &[f64]| s.len() as f64)),
+        "pipe2" => v.titer().vshift(n, None).vshift(q as i32, None),
+        "pipe3" => Box::new(v.titer().vshift(n, None).vabs().map(|x| x)).vclip(f64::NAN, f64::NAN).vshift(q as i32, None),
+        "to_trust" => Box::new(v.titer().to_trust(v.len())),
+        _ => panic!("harness: unknown kind {kind}"),
     }
 }
 
@@ -109,6 +151,79 @@ pub fn replay(args: &Args) {
             }
             let (mut kf, mut kb) = (0usize, 0usize);
             for (step, s) in sched.iter().enumerate() {
+                if matches!(s.as_str(), "C" | "L" | "S") {
+                    // terminal operations on what is left (count / last / fold), on the concrete type
+                    let rem = total - kf - kb;
+                    match s.as_str() {
+                        "C" => {
+                            let c = it.count_rest();
+                            if c != rem {
+                                return Err(format!("step {step}: count() = {c} with {rem} item(s) remaining"));
+                            }
+                        },
+                        "L" => {
+                            let l = it.last_rest();
+                            if l.is_some() != (rem > 0) {
+                                return Err(format!("step {step}: last() = {l:?} with {rem} item(s) remaining"));
+                            }
+                            if let (Some(x), false) = (l, items.is_empty()) {
+                                let want = items[items.len() - 1 - kb];
+                                let w = if want == NULL { f64::NAN } else { want as f64 };
+                                if !(x == w || (x.is_nan() && w.is_nan())) {
+                                    return Err(format!("step {step}: last() yielded {x}, want {w}"));
+                                }
+                            }
+                        },
+                        _ => {
+                            let (c, sum) = it.fold_rest();
+                            if c != rem {
+                                return Err(format!("step {step}: fold visited {c} item(s) with {rem} remaining"));
+                            }
+                            if !items.is_empty() {
+                                let mut w = 0.0;
+                                for x in &items[kf..items.len() - kb] {
+                                    if *x != NULL {
+                                        w += *x as f64;
+                                    }
+                                }
+                                if sum != w {
+                                    return Err(format!("step {step}: fold summed {sum}, want {w}"));
+                                }
+                            }
+                        },
+                    }
+                    return Ok(());
+                }
+                if let Some(kk) = s.strip_prefix('M') {
+                    // nth_back(k)
+                    let k: usize = kk.parse().map_err(|_| format!("harness: bad schedule step {s}"))?;
+                    let rem = total - kf - kb;
+                    let got = it.nth_back(k);
+                    if k < rem {
+                        let Some(x) = got else {
+                            return Err(format!("step {step} ({s}): nth_back({k}) returned nothing with {rem} item(s) remaining"));
+                        };
+                        if !items.is_empty() {
+                            let want = items[items.len() - 1 - kb - k];
+                            let w = if want == NULL { f64::NAN } else { want as f64 };
+                            if !(x == w || (x.is_nan() && w.is_nan())) {
+                                return Err(format!("step {step} ({s}): nth_back({k}) yielded {x}, want {w}"));
+                            }
+                        }
+                        kb += k + 1;
+                    } else {
+                        if got.is_some() {
+                            return Err(format!("step {step} ({s}): nth_back({k}) returned an item although only {rem} remained"));
+                        }
+                        kb += rem;
+                    }
+                    let rem = total - kf - kb;
+                    let h = it.hint();
+                    if h != (rem, Some(rem)) {
+                        return Err(format!("after {s} ({} item(s) consumed) the size hint is {h:?} but {rem} item(s) remain", kf + kb));
+                    }
+                    continue;
+                }
                 if let Some(kk) = s.strip_prefix('N') {
                     // nth(k): skips k items, yields the next; drains the iterator when it overshoots
                     let k: usize = kk.parse().map_err(|_| format!("harness: bad schedule step {s}"))?;
